@@ -104,11 +104,12 @@ def other_ty(rng, ty):
 
 
 def array_reqs(rng, node, ctx):
-    """requests inside an array scope (without the open/close). ctx['stop'] is set once an array is left
-    partly read: the enclosing scopes are then misplaced (recorded finding), so only closes may follow."""
+    """requests inside an array scope (without the open/close). The scope may be closed before all of its elements
+    were read (its destructor skips the rest), and the enclosing scopes go on afterwards.
+    ctx['stop'] is set when a request raises an exception: the run ends there."""
     reqs = []
     n = len(node.items)
-    upto = n if (not ctx["partial_ok"] or rng.random() < 0.7) else rng.randrange(0, n + 1)
+    upto = n if rng.random() < 0.65 else rng.randrange(0, n + 1)
     for it in node.items[:upto]:
         if it.kind == "sc":
             reqs.append("n=" + other_ty(rng, it.ty))
@@ -127,7 +128,7 @@ def array_reqs(rng, node, ctx):
         if rng.random() < 0.1:
             reqs.append("e")
     if upto < n:
-        ctx["stop"] = True
+        pass                                            # left partly read: ~CMsgPackReadArrayScope skips the rest
     elif rng.random() < 0.1:
         reqs.append(rng.choice(["n=i", "a", "e"]))     # one past the end -> OutOfRange / IsEnd
         if reqs[-1] != "e":
@@ -179,13 +180,21 @@ def object_reqs(rng, node, ctx):
     return reqs
 
 
-def gen_scope_ops(tier, rng, boost=1, partial_arrays=True, count=None):
+def truncate_tokens(rng, toks):
+    """cut the token list somewhere (token-level truncation): scopes that are closed over the missing part
+    must defer the ParsingException of their skip loop to Finalize()"""
+    if len(toks) < 2:
+        return toks
+    return toks[:rng.randrange(1, len(toks))]
+
+
+def gen_scope_ops(tier, rng, boost=1, count=None, truncated=0.08):
     ops = []
     n = count or ((700 if tier == "quick" else 12000) * boost)
     for i in range(n):
         src = "mem" if i % 2 == 0 else "stream"
         mis = rng.choice(["skip", "skip", "throw"])
-        ctx = {"stop": False, "partial_ok": partial_arrays}
+        ctx = {"stop": False}
         toks = []
         reqs = []
         if src == "stream" and rng.random() < 0.6:
@@ -207,5 +216,59 @@ def gen_scope_ops(tier, rng, boost=1, partial_arrays=True, count=None):
         toks.append("i%d" % sentinel)
         if not ctx["stop"] or rng.random() < 0.5:
             reqs.append("n=i")
+        if rng.random() < truncated:
+            toks = truncate_tokens(rng, toks)
+            # mostly without the request for the sentinel behind the root value: a destructor's skip loop is then often the
+            # ONLY place that notices the missing part (the error must come from Finalize(), after the last `C`)
+            if reqs and reqs[-1] == "n=i" and rng.random() < 0.8:
+                reqs.pop()
         ops.append("mp.scope %s %s %s %s" % (src, mis, ",".join(toks), ";".join(reqs)))
+    return ops
+
+
+def gen_tupobj_ops(tier, rng, boost=1):
+    """mp.tuple … obj: struct { std::tuple<int64,string,int64,bool> t; int64 z; } loaded from {"t": <array or something else>, "z": …}
+    in both key orders: arrays shorter and LONGER than the tuple (under Skip the tuple stops inside the array and the
+    array scope's destructor has to skip the rest), elements of another kind at every subset of positions, nested
+    containers as surplus elements, "t" absent / nil / not an array, "z" absent / of another kind, extra members"""
+    def sc(kind):
+        if kind == "i": return "i" + str(rng.choice([0, 1, 7, -3, 200, 70000, -40000, 2 ** 40]))
+        if kind == "s": return "s" + (bytes(rng.choice(b"abcXYZ") for _ in range(rng.randrange(0, 5))).hex() or "-")
+        if kind == "t": return rng.choice(["t", "f"])
+        if kind == "n": return "n"
+        if kind == "d": return "d" + rng.choice(["3ff8000000000000", "4045000000000000"])
+        if kind == "b": return "b" + bytes([1, 2]).hex()
+        if kind == "A": return "a2,i1," + sc(rng.choice("is"))            # surplus element that is itself an array
+        if kind == "M": return "m1,s6b,a1,i5"                             # … or an object
+    want = ["i", "s", "i", "t"]
+    other = {"i": ["s", "n", "d", "b"], "s": ["i", "t", "n", "d"], "t": ["s", "n", "d"]}
+    ops = []
+    n = (200 if tier == "quick" else 4000) * boost
+    for i in range(n):
+        mask = i % 16 if i < 32 else (0 if rng.random() < 0.5 else rng.randrange(16))
+        length = rng.choice([4, 4, 0, 1, 2, 3, 5, 6, 9])
+        toks = []
+        for k in range(length):
+            if k < 4:
+                toks.append(sc(rng.choice(other[want[k]])) if (mask >> k) & 1 else sc(want[k]))
+            else:
+                toks.append(sc(rng.choice("isnAM")))
+        r = rng.random()
+        tval = ",".join([f"a{length}"] + toks) if r < 0.88 else rng.choice(["n", "i3", "s41", "m1,i1,i2", None])
+        zr = rng.random()
+        zval = "i" + str(rng.choice([5, -9, 123456789012, 0])) if zr < 0.85 else rng.choice(["s7a", "n", None])
+        members = []
+        if tval is not None: members.append("s74," + tval)
+        if zval is not None: members.append("s7a," + zval)
+        if rng.random() < 0.3: members.insert(rng.randrange(0, len(members) + 1), "s71,a2,i1,i2")
+        if rng.random() < 0.25: members.reverse()
+        doc = ",".join([f"m{len(members)}"] + members + ["i77"])
+        for src in ("mem", "stream"):
+            ops.append(f"mp.tuple {src} skip {doc} obj")
+        if i % 3 == 0:
+            ops.append(f"mp.tuple {rng.choice(('mem', 'stream'))} throw {doc} obj")
+    for d in ("i3", "n", "s41", "a1,i1", "m0", "t"):
+        for src in ("mem", "stream"):
+            for mis in ("skip", "throw"):
+                ops.append(f"mp.tuple {src} {mis} {d} obj")
     return ops
